@@ -113,10 +113,15 @@ func (l *ltBroadcast) buildPendBlock(pd *pendBlock) bool {
 
 func (l *ltBroadcast) addLtBlock(ltBlock *types.LightBlock, receiveFrom, publisher peer.ID) {
 
+	txCount := ltBlock.GetHeader().GetTxCount()
+	// 交易数量必须和短哈希列表长度一致, 否则为非法数据, 直接丢弃(避免根据对端声明的数量分配内存)
+	if txCount <= 0 || txCount != int64(len(ltBlock.GetSTxHashes())) {
+		log.Error("addLtBlock", "txCount", txCount, "sTxHashes", len(ltBlock.GetSTxHashes()), "from", receiveFrom.String())
+		return
+	}
 	//组装block
 	block := &types.Block{}
 	block.SetHeader(ltBlock.GetHeader())
-	txCount := ltBlock.GetHeader().GetTxCount()
 	block.Txs = make([]*types.Transaction, txCount)
 	//add miner tx
 	block.Txs[0] = ltBlock.MinerTx
